@@ -22,7 +22,7 @@ RELATED = {
     "C07": [("c11", ["R11.2"]), ("c01", ["R01.2", "R01.5"]), ("c02", ["R02.3"]), ("c12", ["R12.2", "R12.7"]), ("c03", ["R03.4"]),
             ("lints", ["L.try-lock", "L.partial-read", "L.partial-write"])],
     "C08": [("c04", ["R04.1", "R04.3"]), ("c03", ["R03.4"]), ("c14", ["R14.4"]), ("lints", ["L.try-send"])],
-    "C09": [("c12", ["R12.1", "R12.3", "R12.6", "R12.7", "R12.8", "R12.9"]), ("c10", ["R10.6"]), ("c05", ["R05.1*"]), ("c08", ["R08.1~outside-worker"]), ("c03", ["R03.3"]), ("lints", ["L.partial-read"])],
+    "C09": [("c12", ["R12.1", "R12.3", "R12.6", "R12.7", "R12.8", "R12.9"]), ("c10", ["R10.6", "R10.8"]), ("c05", ["R05.1*"]), ("c08", ["R08.1~outside-worker"]), ("c03", ["R03.3"]), ("lints", ["L.partial-read"])],
     "C10": [("c11", ["R11.8~truncate_incomplete_record"]), ("c09", ["R09.1", "R09.5"]), ("c12", ["R12.7", "R12.8", "R12.9"]), ("c05", ["R05.3"]), ("lints", ["L.partial-read"])],
     "C11": [("c12", ["R12.4"]), ("c08", ["R08.1", "R08.4", "R08.5", "R08.6"]), ("c02", ["R02.4"]), ("c07", ["R07.6"]), ("c03", ["R03.1"]), ("lints", ["L.partial-write", "L.file-create-truncate"])],
     "C12": [("c03", ["R03.3"]), ("lints", ["L.partial-read"])],
